@@ -37,6 +37,65 @@ def snake(name):
     return s.upper()
 
 
+def check_template_constancy(rep, rule):
+    """In every to_* serialiser of the HTTPException family the *template* of a ``.format(...)`` / ``%`` is made of
+    string constants only.  Data interpolated into a string that is formatted again turns the data into a format
+    template: a brace or percent sign in a detail / exception message then raises (KeyError/ValueError/IndexError)
+    inside the error renderer -- and inside the default renderer used as its fallback -- or substitutes other fields."""
+    repo = rep.repo
+    err = repo.mod(ERR)
+    base = err.cls('HTTPException')
+    fam = [base] + repo.subclasses(base, [err])
+    n = 0
+    for c in fam:
+        for name, m in sorted(c.methods.items()):
+            if not name.startswith('to_') or name in ('to_dict', 'to_escaped_dict'):
+                continue
+
+            def const_expr(e, depth=0):
+                """is this string-valued expression built from constants only?"""
+                if depth > 8:
+                    return False
+                if isinstance(e, ast.Constant):
+                    return isinstance(e.value, str)
+                if isinstance(e, ast.JoinedStr):
+                    return all(isinstance(v, ast.Constant) for v in e.values)
+                if isinstance(e, ast.BinOp) and isinstance(e.op, ast.Add):
+                    return const_expr(e.left, depth + 1) and const_expr(e.right, depth + 1)
+                if isinstance(e, (ast.List, ast.Tuple)):
+                    return all(const_expr(x, depth + 1) for x in e.elts)
+                if isinstance(e, ast.Call) and isinstance(e.func, ast.Attribute) and e.func.attr == 'join' and len(e.args) == 1:
+                    return const_expr(e.func.value, depth + 1) and const_expr(e.args[0], depth + 1)
+                if isinstance(e, ast.Name):
+                    srcs = [s.value for s in stmts_of(m.node) if isinstance(s, ast.Assign) and norm(s.targets[0]) == e.id]
+                    adds = [c_ for c_ in walk_body(m.node) if isinstance(c_, ast.Call) and isinstance(c_.func, ast.Attribute)
+                            and norm(c_.func.value) == e.id and c_.func.attr in ('append', 'extend', 'insert')]
+                    augs = [s.value for s in stmts_of(m.node) if isinstance(s, ast.AugAssign) and norm(s.target) == e.id]
+                    if not srcs:
+                        try:
+                            return isinstance(repo.fold(e, err), str)
+                        except Exception:
+                            return False
+                    return all(const_expr(v, depth + 1) for v in srcs + augs) and all(const_expr(a.args[-1], depth + 1) for a in adds)
+                return False
+            for node in walk_body(m.node):
+                tmpl = None
+                if isinstance(node, ast.Call) and isinstance(node.func, ast.Attribute) and node.func.attr in ('format', 'format_map'):
+                    tmpl = node.func.value
+                elif isinstance(node, ast.BinOp) and isinstance(node.op, ast.Mod) and \
+                        not (isinstance(node.left, ast.Constant) and not isinstance(node.left.value, str)):
+                    tmpl = node.left
+                if tmpl is None:
+                    continue
+                n += 1
+                ok = const_expr(tmpl)
+                rep.check(rule, fkey(m, 'template of ' + norm(node)[:60]), ok,
+                          'format template is made of constants only' if ok else
+                          '%s.%s formats a template that already contains interpolated data (%s): a "{" / "%%" in a detail or exception '
+                          'message raises inside the renderer and inside its default-rendering fallback' % (c.name, name, short(tmpl)), err, node)
+    return n
+
+
 def run(rep):
     repo = rep.repo
     err = repo.mod(ERR)
@@ -142,6 +201,10 @@ def run(rep):
         ok = len(bm) == 1 and norm(bm[0].value.args[0]) == 'MIME_SUPPORT_MAP' and 'accept_mimetypes' in norm(bm[0].value.func)
         ac = [c for c in walk_body(fi.node) if isinstance(c, ast.Call) and norm(c.func) == '_error.adapt']
         ok = ok and len(ac) == 1 and norm(ac[0].args[0]) == norm(bm[0].targets[0]) and all(norm(r.value) == '_error' for r in returns_of(fi)) and returns_of(fi)
+        if ok:
+            # ... on every path: a return that skips adapt() leaves body and Content-Type as constructed
+            fcfg = cfg_of(fi)
+            ok = fcfg.must_pass(fcfg.nodes_of(stmt_of(mod_, ac[0])), fcfg.entry, fcfg.exit, normal_only=True)
         rep.check('R09.b', fkey(fi), bool(ok), 'negotiates over MIME_SUPPORT_MAP, adapts the error to the winner and returns it' if ok else
                   '%s does not negotiate over MIME_SUPPORT_MAP / adapt / return the same error' % fi.qualname, mod_, fi.node)
     if app.resolve if False else True:
@@ -220,6 +283,8 @@ def run(rep):
                       '%s.%s uses the unescaped to_dict()' % (c.name, name), err, raw[0] if raw else m.node)
     if n_sinks < 4:
         raise AnalysisError('only %d to_html/to_xml methods found (floor 4)' % n_sinks)
+    if check_template_constancy(rep, 'R09.c') < 3:
+        raise AnalysisError('format sinks in the to_* serialisers not found')
     rep.floor('R09.c', 8)
 
     # ---- R09.d -----------------------------------------------------------
